@@ -22,8 +22,17 @@ macro "se_val_simp" : tactic =>
       Bool.or_false, Bool.false_or, decide_true, decide_false, Bool.false_eq_true, gt_iff_lt, ge_iff_le,
       Nat.reduceLT, Nat.reduceAdd, Nat.lt_irrefl, Nat.not_lt_zero, reduceCtorEq, *])
 
+/-- second attempt: the traced comparisons may be written differently from the model's (`f >= 0`
+    where the model tests `f < 0`, `a <= b` for `not a > b`, …): bring every comparison of the goal
+    and of the path hypotheses to the one form `_ ≤ _` / `¬ _ ≤ _`, then evaluate again -/
+macro "se_val_norm" : tactic =>
+  `(tactic| ((try se_val_simp);
+             (try simp only [gt_iff_lt, ge_iff_le, ← Rat.not_le, Classical.not_not] at *);
+             (try se_val_simp); done))
+
 macro "se_val" : tactic =>
   `(tactic| first
     | (se_val_simp; done)
+    | se_val_norm
     | (se_val_simp <;> grind)
     | grind)
